@@ -22,6 +22,7 @@ static void *raw_alloc(size_t n)
   return h + 1;
 }
 static size_t raw_size(void *p) { return ((vp_hdr_t *)p - 1)->n; }
+#  define raw_alloc_re raw_alloc
 static void raw_free(void *p) { free((vp_hdr_t *)p - 1); }
 #else
 static void *raw_alloc(size_t n)
@@ -43,6 +44,26 @@ static void *raw_alloc(size_t n)
 #  endif
   __CPROVER_assume(p != NULL);
   return p;
+}
+/* realloc target sizes are growth-computed (symbolic) in c-ares: -DVP_REALLOC_SIZES=a,b,c case-splits them */
+static void *raw_alloc_re(size_t n)
+{
+#  ifdef VP_REALLOC_SIZES
+  static const size_t sizes[] = { VP_REALLOC_SIZES };
+  size_t              i;
+  void               *p = NULL;
+  for (i = 0; i < sizeof(sizes) / sizeof(*sizes); i++) {
+    if (n == sizes[i]) {
+      p = malloc(sizes[i]);
+      break;
+    }
+  }
+  VP_BOUND(i < sizeof(sizes) / sizeof(*sizes), "realloc size outside VP_REALLOC_SIZES");
+  __CPROVER_assume(p != NULL);
+  return p;
+#  else
+  return raw_alloc(n);
+#  endif
 }
 static size_t raw_size(void *p) { return __CPROVER_OBJECT_SIZE(p); }
 static void raw_free(void *p) { free(p); }
@@ -72,8 +93,15 @@ void *vp_realloc(void *p, size_t n)
   void  *q;
   size_t old;
   size_t i;
-  if (p == NULL)
-    return vp_malloc(n);
+  if (p == NULL) {
+    vp_alloc_calls++;
+    if (vp_alloc_fail_at != 0 && vp_alloc_calls == vp_alloc_fail_at)
+      return NULL;
+    if (n == 0)
+      n = 1;
+    vp_alloc_live++;
+    return raw_alloc_re(n);
+  }
   if (n == 0) {
     vp_free(p);
     return NULL;
@@ -82,7 +110,13 @@ void *vp_realloc(void *p, size_t n)
   if (vp_alloc_fail_at != 0 && vp_alloc_calls == vp_alloc_fail_at)
     return NULL;
   old = raw_size(p);
-  q   = raw_alloc(n);
+  q   = raw_alloc_re(n);
+#if !defined(VP_NATIVE) && defined(VP_REALLOC_ARRAYCOPY)
+  /* growing realloc between concrete-size objects: one array-level copy instead of a byte loop */
+  VP_BOUND(old <= n, "shrinking realloc not modelled with VP_REALLOC_ARRAYCOPY");
+  __CPROVER_array_replace((unsigned char *)q, (unsigned char *)p);
+  if (0)
+#endif
   for (i = 0; i < old && i < n; i++)
     ((unsigned char *)q)[i] = ((unsigned char *)p)[i];
   raw_free(p);
